@@ -278,8 +278,11 @@ json trace_json(Trace const& tr, bool full = false)
 
 void record(Engine& E, Verdict const& v, json const& witness)
 {
-    for (auto const& m : v.maxima)
-        E.rep.observe_max(m.first, m.second);
+    // margins (error / tolerance) are reported for held cases only, so that they show how
+    // close the unchanged code comes to each bound
+    if (v.findings.empty())
+        for (auto const& m : v.maxima)
+            E.rep.observe_max("held:" + m.first, m.second);
     for (auto const& n : v.notes)
         E.rep.observe(n);
     if (v.findings.empty())
